@@ -399,10 +399,11 @@ impl<T: Flt> Runner<T> {
         }
 
         let res: Res = match op {
-            Op::P | Op::Px | Op::PM(_, _) | Op::PP(_) => {
+            Op::P | Op::Px | Op::PM(_, _) | Op::PP(_) | Op::PPM(_, _, _) => {
                 // ---- build arguments
                 let (mask_bits, empty_inactive) = match op {
                     Op::PM(m, e) => (Some(m), e),
+                    Op::PPM(m, _, e) => (Some(m), e),
                     _ => (None, false),
                 };
                 if let Some(m) = mask_bits {
@@ -422,6 +423,7 @@ impl<T: Flt> Runner<T> {
                     let in_frames = match op {
                         Op::Px => before.in_next,
                         Op::PP(Some(n)) => n,
+                        Op::PPM(_, n, _) => n,
                         Op::PP(None) => 0,
                         _ => before.in_max,
                     };
@@ -454,7 +456,10 @@ impl<T: Flt> Runner<T> {
                 if let Op::PP(n) = op {
                     supplied = n.unwrap_or(0).min(before.in_next);
                 }
-                self.arm(if matches!(op, Op::PP(_)) {
+                if let Op::PPM(_, n, _) = op {
+                    supplied = n.min(before.in_next);
+                }
+                self.arm(if matches!(op, Op::PP(_) | Op::PPM(_, _, _)) {
                     before.in_next
                 } else {
                     supplied
@@ -470,7 +475,7 @@ impl<T: Flt> Runner<T> {
                     Op::PP(None) => {
                         r.process_partial_into_buffer(None::<&[Vec<T>]>, outref, mask_opt)
                     }
-                    Op::PP(Some(_)) => {
+                    Op::PP(Some(_)) | Op::PPM(_, _, _) => {
                         r.process_partial_into_buffer(Some(&inref[..]), outref, mask_opt)
                     }
                     _ => r.process_into_buffer(&inref[..], outref, mask_opt),
